@@ -284,6 +284,17 @@ def run(ctx):
             and any(strip(f) == ("attr", ("attr", ("param", alv.params[0]), "_protocol"), "alive") for f in fs)
     ctx.ob("C08.d", alv.qual, ok_a, "_alive is true only with an existing, alive protocol", func=alv.qual, file=file, construct="_alive",
            fail="_alive can be true without a protocol / with a dead one: send() would not reconnect")
+    # ---- C08.d after a failed exchange the connection object is gone (self._protocol = None): nothing may touch it before the None test /
+    # the reconnect - an AttributeError there is raised by every later exchange, and recovery never happens
+    from ..shared import unguarded_optional_uses
+    lan_cls = prog.cls(LAN)
+    bare = unguarded_optional_uses(prog, lan_cls, "_protocol")
+    ctx.count("protocol_uses_checked", 1)
+    ctx.ob("C08.d", LAN, not bare, "every use of self._protocol.<x> in LAN is preceded by a test (or assertion) that a protocol exists", func=LAN, file=file,
+           construct="self._protocol uses") if not bare else None
+    for q_, n_ in bare:
+        ctx.ob("C08.d", q_, False, "", func=q_, file=file, node=n_,
+               fail=f"`{norm(n_)}` is evaluated where self._protocol can be None (after a failed exchange it is): AttributeError instead of a reconnect")
     # ---- C08.t4 "retransmission stops as soon as a response arrives" / "the next exchange succeeds" need every response that arrives -
     # after garbage, split or coalesced - to be delivered: the reassembly premises of C04 are re-run here, not assumed
     from . import c04
